@@ -24,7 +24,8 @@ impl<T: Write> WritePrinter<T> {
     fn print_as_is(&mut self, s: &str) -> std::io::Result<usize> {
         let bytes_written = self.writer.write(s.as_bytes())?;
         self.writer.flush()?;
-        self.last_column += s.len();
+        // a column is a character: CHR$(128) to CHR$(255) are two bytes each in UTF-8
+        self.last_column += s.chars().count();
         Ok(bytes_written)
     }
 }
